@@ -221,10 +221,12 @@ pub fn judge_enc(
             if want_obs {
                 j.observed = obs_of(&r);
             }
-            if let (EncOut::Ok(n), EncExp::Bytes(_)) = (&r.out, &exp) {
+            if let (EncOut::Ok(n), EncExp::Bytes(e)) = (&r.out, &exp) {
                 j.produced = true;
                 let bytes = &r.buf[..(*n).min(r.buf.len())];
-                let rd = ref_decode(bytes);
+                // the verdict the property promises is the one for the packet the call *should* have
+                // produced (accepted, payload after the header); the decoder sees what it did produce
+                let rd = ref_decode(e);
                 let recv_o = Owned::new(&Cfg::bare(0x6E));
                 let recv = recv_o.ctx();
                 let got = subject::decode(&recv, bytes);
